@@ -16,7 +16,7 @@ for patch in sorted(glob.glob(os.path.join(base, "*", "patch.diff"))):
             print(name, "PATCH-FAILED", r.stdout[:200]); continue
         res = []
         for pid in pids:
-            env = dict(os.environ, VERIF_REPO=d, VERIF_OUT=d + "/out")
+            env = dict(os.environ, VERIF_REPO=d, VERIF_OUT=d + "/out", VERIF_BUDGET_SCALE=os.environ.get("BENIGN_SCALE", "1"))
             p = subprocess.run([os.path.join(ROOT, "run"), "check", pid, "--tier", "quick"], env=env, capture_output=True, text=True)
             if p.returncode:
                 bad += 1
